@@ -80,6 +80,8 @@ def mirror_handler(ix, mon, d, name):
 
 
 def check(ix, rep):
+    from sa.rules import round11 as _r11
+    rep.floor('functions of the monitors scanned for rounded bounds', _r11.check_no_rounding(ix, rep), 50)
     mon = {m.kind: m for m in M.standard_monitors(ix)}['discrete-offline']
     q = c02._Quiet(rep)
     sums, decided = c01.opsum_offline_discrete(ix, q, mon)
